@@ -182,7 +182,21 @@ CLAIMS.update({
           'preconditions of later operations such as zip). escape / purity / live_vars / context_use facts are not attached.'),
 })
 
+CLAIMS.update({
+ 'C03': dict(engine='Elementary', text=(
+     'spec/Elementary.tla states the step the property is about: given an enclosure lo <= true value <= hi, rounding is monotone, so '
+     'when Rounding!Expect(ctx, lo) and Rounding!Expect(ctx, hi) are one and the same outcome the code must have returned it, flagged '
+     'inexact exactly when the true value is not the operand of an exact case. The enclosure is computed by MPFR (gmpy2) at 160 bits with '
+     'directed rounding and reduced outward to 22 significant bits. 24 unary and 2 binary functions and the 12 named constants x dyadic '
+     'operands x contexts of precision 1..8 (10 thorough) in all 8 modes, with a subnormal range, with overflow, and fixed-point targets '
+     '(the two-pass precision selection).'),
+     note='Trusted base: MPFR\'s directed rounding. Decided only where both ends of the 22-bit enclosure round alike (the rest is counted as '
+          'inconclusive) and where values fit TLC\'s integers (2^-23 <= |result| < 2^22): precisions of several hundred digits are outside '
+          'the specification\'s reach.'),
+})
+
 ENGINES = [
+ ('Elementary', 'spec/Elementary.tla', ['C03'], 'correct rounding given an enclosure of the true value'),
  ('FactMachine', 'spec/FactMachine.tla', ['C13'], 'abstract machine with analysis facts checked on every step'),
  ('Runtime', 'spec/Runtime.tla', ['C18'], 'process-level runtime model: threads, cache, boundary copies, scoped MPFR settings'),
  ('RuntimeSched', 'spec/RuntimeSched.tla', ['C18'], 'schedule generator (history variable over Runtime behaviours)'),
